@@ -28,6 +28,13 @@
    lnd's queue.ConcurrentQueue (its 20-slot ChanOut plus overflow list is the
    single list q here).
 
+   Subscriber identity: here a subscriber is its position in `subs`
+   (registration order).  The uint64 id that NewSubscription takes in the
+   caller's goroutine, the map keyed by it and overlapping NewSubscription
+   calls are modelled in ModelK.v; ProofsK.v proves that every run of that
+   keyed system is a run of this one (Register = the handler's step of a
+   call whose id was taken earlier, Cancel i = the lookup of i's id).
+
    Ghost fields (never read by the transitions that compute non-ghost
    fields): backlog, reg_at, end_at, pushed, missed; emitted in sys. *)
 From Coq Require Import ZArith List Bool Arith.
